@@ -1,6 +1,6 @@
 (* Entry points evaluated by the correspondence check: [run entry args] returns the
    canonical rendering of what the model computes.  Arguments are ASCII/hex byte strings. *)
-From FF Require Import model.Bytes model.Show model.EntryEqual model.RunCodec model.RunHandshake model.RunClient model.RunConc model.RunWs model.RunSendBuf.
+From FF Require Import model.Bytes model.Show model.EntryEqual model.RunCodec model.RunHandshake model.RunClient model.RunConc model.RunWs model.RunSendBuf model.RunOptCells.
 From Coq Require Import String.
 Open Scope N_scope.
 
@@ -38,7 +38,7 @@ Definition first_some (l : list (option bytes)) : bytes :=
   fold_right (fun o acc => match o with Some x => x | None => acc end) (str "unknown-entry") l.
 
 Definition run (entry : bytes) (args : list bytes) : bytes :=
-  first_some [run_c20 entry args; run_codec entry args; run_handshake entry args; run_client entry args; run_conc entry args; run_ws entry args; run_sendbuf entry args].
+  first_some [run_c20 entry args; run_codec entry args; run_handshake entry args; run_client entry args; run_conc entry args; run_ws entry args; run_sendbuf entry args; run_optcells entry args].
 
 (* In-kernel cross-evaluation: cases are (entry, hex/ASCII args, expected). *)
 Definition mismatches (cases : list (string * list string * string)) : list (string * list string * string) :=
